@@ -197,6 +197,7 @@ fn deserialize_eof() {
         4 => deser_case(31, usize::MAX),
         _ => deser_case(32, usize::MAX),
     }
+    kani::cover!(true);
 }
 
 // @obl props=C08,C17 tier=quick fns=ShortName::new,ShortName::as_bytes
@@ -235,6 +236,7 @@ fn shortname_new() {
 
 // @obl props=C08 tier=quick fns=DirFileEntryData::lowercase_name,DirFileEntryData::lowercase_basename,DirFileEntryData::lowercase_ext
 // @desc forall raw names and NT flag bytes: bit 3 lowers ASCII letters of bytes 0-7 only, bit 4 lowers bytes 8-10 only, every other byte (including OEM bytes >= 0x80) is untouched; result is ShortName::new of that
+#[cfg(feature = "alloc")]
 #[kani::proof]
 #[kani::unwind(13)]
 fn lowercase_name_flags() {
